@@ -51,7 +51,10 @@ def run(pid, tier, seed):
     q = tier == "quick"
     # (the sanitizer build of the generated dispatch takes two minutes per changed tree: thorough tier only)
     exe_asan = vlib.build_harness("make", ["make.cxx"], cfg="asan") if (pid == "C14" and not q) else None
-    consts = {"Use": "<- FactoryNames", "MaxLinks": 2 if q else 4, "Record": "TRUE"}
+    consts = {"Use": "<- FactoryNames", "MaxLinks": 2 if q else 4, "Record": "TRUE", "Mode": '"sweep"'}
+    # the same call made twice in a row (C05: a node of its own each time); declarations are left out: declaring a name twice
+    # with one type is a redeclaration, which IprScopes describes
+    twins = dict(consts, Mode='"twins"', Use="<- TwinFactories")
     tdir = vlib.trace_dir()
     os.makedirs(tdir, exist_ok=True)
     tps = []
@@ -182,7 +185,7 @@ def replay(pid, path):
         print("recorded prefixes are deterministic re-recordings: run `bin/check %s quick`" % pid)
         return 2
     f = lines[0]["f"]
-    consts = {"Use": '{"%s"}' % f, "MaxLinks": 4, "Record": "TRUE"}
+    consts = {"Use": '{"%s"}' % f, "MaxLinks": 4, "Record": "TRUE", "Mode": '"sweep"'}
     r = vlib.generate_and_replay("IprMakeMC", "replay", consts, exe, ("replay",), (), (), 2, 600)
     for fl in r["fails"]:
         if mine(pid, fl["expected"], fl["got"]) and [e["a"] for e in fl["beh"]][:1] == [lines[0]["a"]]:
